@@ -477,13 +477,18 @@ def run_history(rng, rec, scratch, hist_id, length):
                 h = hashlib.sha256(target.read_bytes()).hexdigest()
                 mode = str(rng.choice(["default", "no-ignore", "overwrite"]))
                 ops[-1].append(mode)
+                as_mapping = bool(rng.integers(2))  # import_data accepts one dataset + name, or a mapping name -> dataset
+                ops[-1].append("mapping" if as_mapping else "single")
+                mode = mode if not as_mapping else mode
                 try:
                     if mode == "default":
-                        proj.import_data(objs["dataset"] * 2, dataset_name="d1")
+                        proj.import_data({"d1": objs["dataset"] * 2}) if as_mapping else proj.import_data(objs["dataset"] * 2, dataset_name="d1")
                     elif mode == "no-ignore":
-                        proj.import_data(objs["dataset"] * 2, dataset_name="d1", ignore_existing=False)
+                        (proj.import_data({"d1": objs["dataset"] * 2}, ignore_existing=False) if as_mapping
+                         else proj.import_data(objs["dataset"] * 2, dataset_name="d1", ignore_existing=False))
                     else:
-                        proj.import_data(objs["dataset"], dataset_name="d1", allow_overwrite=True)
+                        (proj.import_data({"d1": objs["dataset"]}, allow_overwrite=True) if as_mapping
+                         else proj.import_data(objs["dataset"], dataset_name="d1", allow_overwrite=True))
                     err = None
                 except FileExistsError:
                     err = "FileExistsError"
@@ -491,7 +496,7 @@ def run_history(rng, rec, scratch, hist_id, length):
                     err = type(e).__name__
                 h2 = hashlib.sha256(target.read_bytes()).hexdigest()
                 if mode != "overwrite" and h2 != h:
-                    rec.violation(f"project:import_data-overwrote:{mode}", ctx, "existing dataset file changed without allow_overwrite")
+                    rec.violation(f"project:import_data-overwrote:{mode}:{'mapping' if as_mapping else 'single'}", ctx, "existing dataset file changed without allow_overwrite")
                 if mode == "no-ignore" and err != "FileExistsError":
                     rec.violation("project:import_data-no-refusal", ctx, f"ignore_existing=False, allow_overwrite=False on an existing dataset: {err}")
                 if mode == "default" and err is not None:
